@@ -215,6 +215,14 @@ package jrpc2
 //@   modifies fired(self)
 //@   ensures fired(self)
 
+// slotId(c): ghost - the request id the one-slot delivery channel c was made
+// for. idKey(b): the table key of a wire id (null counts as absent).
+// Every message sent on such a channel carries that id (chaninv), which is why
+// the id check in Response.wait cannot fail.
+//@ ghost slotId(Int) Str
+//@ pure idKey(b Slice) Str = (len(b) == 4 && b[0] == 'n' && b[1] == 'u' && b[2] == 'l' && b[3] == 'l') ? "" : str(b)
+//@ chaninv *jmessage msg != nil && idKey(msg.ID) == slotId(ch)
+
 // slotOpen(r): r's one-slot delivery channel has not been written or closed.
 //@ pure slotOpen(r *Response) Bool = r != nil && r.cancel != nil && r.ch != nil && chantyped(r.ch) && !chanclosed(r.ch) && chanlen(r.ch) == 0 && chancap(r.ch) == 1 && chansends(r.ch) == 0
 
@@ -230,16 +238,19 @@ package jrpc2
 //@   invariant[C08:M1] s.ch != nil ==> s.work != nil && !chanclosed(s.work)
 //@   invariant[C08:M2] s.ch == nil && s.work != nil ==> s.err != nil
 //@   invariant[C07:M4] forall(k string, in(s.used, k) ==> lookup(s.used, k) != nil && k != "" && allocated(lookup(s.used, k)))
-//@   invariant[C09:M3] forall(k string, in(s.call, k) ==> slotOpen(lookup(s.call, k)) && lookup(s.call, k).id == k)
+//@   invariant[C09:M3] forall(k string, in(s.call, k) ==> slotOpen(lookup(s.call, k)) && lookup(s.call, k).id == k && slotId(lookup(s.call, k).ch) == k && !(len(k) == 4 && k[0] == 'n' && k[1] == 'u' && k[2] == 'l' && k[3] == 'l') && k != "")
 //@   invariant[C09:M3-distinct] forall(k1 string, k2 string, in(s.call, k1) && in(s.call, k2) && k1 != k2 ==> lookup(s.call, k1).ch != lookup(s.call, k2).ch)
 //@   invariant[C08:Q] qlen(fieldaddr(s, inq)) >= 0
+//@   invariant[C09:ids-positive] s.callID >= 1
+//@   invariant2[C09:ids-grow] s.callID >= old(s.callID)
+//@   invariant[C09:ids-fresh] forall(n Int, n >= s.callID ==> !in(s.call, itoa(n)))
 
 //@ immutable Server.mux Server.sem Server.allowP Server.log Server.rpcLog Server.newctx Server.builtin Server.mu Server.used Server.call
 
 // encode sends at most one record, and exactly one when it reports success.
 // Only non-empty message lists are ever encoded (C10: whole messages).
 //@ func encode
-//@   requires ch != nil && len(rsps) >= 1
+//@   requires ch != nil && len(rsps) >= 1 && forall(i int, 0 <= i && i < len(rsps) ==> rsps[i] != nil)
 //@   modifies chSends(ch)
 //@   ensures chSends(ch) == old(chSends(ch)) || chSends(ch) == old(chSends(ch)) + 1
 //@   ensures result1 == nil ==> chSends(ch) == old(chSends(ch)) + 1
@@ -394,7 +405,7 @@ package jrpc2
 //@   modifies monitor(Server, s), held(s.mu), fired, assignCalls
 //@   ensures[C08:unlocked] !held(s.mu)
 //@   ensures[C08:dispatcher-or-cause] (result1 == nil) == (result0 != nil)
-//@   loop 1 invariant held(s.mu) && Server_mu_inv(s)
+//@   loop 1 invariant held(s.mu) && Server_mu_inv(s) && s.callID >= atlock(s.callID)
 
 // Stop / WaitStatus.
 //@ func (*Server).WaitStatus
@@ -463,7 +474,7 @@ package jrpc2
 //@   requires wfServer(s) && held(s.mu) && Server_mu_inv(s) && n >= 0
 //@   modifies monitor(Server, s), wgDebt(fieldaddr(s, nbar))
 //@   at call.Add#1 assert[C03:wait-before-add] called("call.Wait#1")
-//@   ensures[C03:relocked] held(s.mu) && Server_mu_inv(s)
+//@   ensures[C03:relocked] held(s.mu) && Server_mu_inv(s) && s.callID >= old(s.callID)
 //@   ensures[C03:debt] wgDebt(fieldaddr(s, nbar)) == old(wgDebt(fieldaddr(s, nbar))) + n
 
 //@ func (tasks).numToDo
@@ -506,14 +517,14 @@ package jrpc2
 //@   modifies monitor(Server, s), fired, assignCalls, wgDebt(fieldaddr(s, nbar))
 //@   fresh result
 //@   ensures[C03:barrier-before-dispatch] called("call.waitForBarrier#1") && result != nil
-//@   ensures[C08:relocked] held(s.mu) && Server_mu_inv(s)
+//@   ensures[C08:relocked] held(s.mu) && Server_mu_inv(s) && s.callID >= old(s.callID)
 
 // The dispatcher: runs the runnable tasks (the last one inline, the others in
 // goroutines it joins), then builds the reply once and delivers it.
 //@ func (*Server).dispatchLocked$1
 //@   captures wfServer(s) && forall(i int, 0 <= i && i < len(tasks) ==> taskOK(tasks[i]) && allocated(tasks[i]) && validErr(tasks[i].err))
 //@   requires !held(s.mu)
-//@   modifies monitor(Server, s), fired, chSends(ch), held(s.mu), semHeld, handlerRuns, todo, wgDebt(fieldaddr(s, nbar))
+//@   modifies monitor(Server, s), fired, chSends(ch), held(s.mu), semHeld, handlerRuns, todo, wgDebt(fieldaddr(s, nbar)), task.val, task.err
 //@   at call.invoke#1 assert[C01:only-runnable-inline] arg2 != nil && arg3 != nil && arg1 != nil
 //@   at call.Done#1 assert[C03:done-after-handler] called("call.invoke#1")
 //@   at call.responses#1 assert[C01:joined-before-reply] called("call.Wait#1")
@@ -566,3 +577,82 @@ package jrpc2
 //@   loop 1 invariant forall(i int, 0 <= i && i < len(rsps) ==> respFor(rsps[i], ts[src[i]]))
 //@   loop 1 invariant forall(i1 int, i2 int, 0 <= i1 && i1 < i2 && i2 < len(rsps) ==> src[i1] < src[i2])
 //@   loop 1 invariant forall(j int, 0 <= j && j <= rangeindex && reports(ts[j]) ==> 0 <= dst[j] && dst[j] < len(rsps) && src[dst[j]] == j)
+
+// ---------------------------------------------------------------------------
+// Server push (C09)
+// ---------------------------------------------------------------------------
+
+// Callback ids come from a counter that only grows: an id is never filed twice,
+// so a context watcher that finds an entry under its id finds its own.
+
+// pushReq: after the connection ended nothing is sent and nothing is filed.
+// Otherwise exactly one record is encoded; a call gets the next id, is filed
+// under it with a fresh open slot, and the counter advances.
+//@ func (*Server).pushReq
+//@   requires wfServer(s) && !held(s.mu) && ctx != nil
+//@   modifies monitor(Server, s), chSends, held(s.mu), slotId
+//@   at call.encode#1 assert[C10:send-under-lock] held(s.mu)
+//@   at call.encode#1 assert[C09:connected] s.ch != nil
+//@   at go.waitCallback#1 ghostset slotId(rsp.ch) = id
+//@   at call.FormatInt#1 assume[the callback id counter does not wrap: fewer than 2^62 callbacks per server] s.callID < 4611686018427387904
+//@   ensures[C09:unlocked] !held(s.mu)
+//@   ensures[C09:closed-no-send] !called("call.encode#1") ==> rsp == nil && forall(c Iface, chSends(c) == old(chSends(c)))
+//@   ensures[C09:call-has-slot] wantID && result1 == nil ==> rsp != nil && rsp.ch != nil && rsp.cancel != nil && slotId(rsp.ch) == rsp.id
+//@   ensures[C09:note-has-none] !wantID ==> rsp == nil
+
+//@ func (*Server).Notify
+//@   requires wfServer(s) && !held(s.mu) && ctx != nil
+//@   modifies monitor(Server, s), chSends, held(s.mu), slotId
+//@   ensures[C09:gate] !s.allowP ==> result == ErrPushUnsupported && forall(c Iface, chSends(c) == old(chSends(c)))
+
+// waitCallback: once the context ends, it completes the callback only if the
+// entry filed under its id is still there (then it removes it first and makes
+// the single write to the slot); otherwise it does nothing.
+//@ func (*Server).waitCallback
+//@   requires wfServer(s) && !held(s.mu) && pctx != nil && p != nil
+//@   stable in(s.call, id) ==> lookup(s.call, id) == p
+//@   at call.Error#1 assume[context.Context: Err is non-nil once Done is closed] err != nil
+//@   modifies monitor(Server, s), held(s.mu)
+//@   at defer.Unlock#1 assert[C09:removed-before-write] called("call.Err#1") ==> !in(s.call, id)
+//@   at defer.Unlock#1 assert[C09:noop-if-gone] !called("call.Err#1") ==> forall(k string, in(s.call, k) == atlock(in(s.call, k)))
+//@   ensures[C09:unlocked] !held(s.mu)
+
+// Response.wait: the first receiver settles the response from the one message
+// and closes the slot; the id of that message is the response's own.
+//@ func (*Response).wait
+//@   requires r != nil && r.ch != nil && r.cancel != nil && slotId(r.ch) == r.id
+//@   modifies r.err, r.result, fired(r.cancel)
+//@   at call.close#1 assume[slot protocol: a slot is closed only by the waiter that received its one message, so a successful receive finds it open] !chanclosed(r.ch)
+
+// Callback: gate, then one pushed call; returns after the slot was settled.
+//@ func (*Server).Callback
+//@   requires wfServer(s) && !held(s.mu) && ctx != nil
+//@   modifies monitor(Server, s), chSends, held(s.mu), slotId, Response.err, Response.result, fired
+//@   ensures[C09:gate] !s.allowP ==> result1 == ErrPushUnsupported && result0 == nil && forall(c Iface, chSends(c) == old(chSends(c)))
+//@   ensures[C09:reply-or-error] (result0 == nil) != (result1 == nil)
+
+// ---------------------------------------------------------------------------
+// Census: structural rules over the whole module (DESIGN 5.4)
+// ---------------------------------------------------------------------------
+
+// C10: who may touch the channel, and from where.
+//@ census[C10] send-sites: invokes Send only-in encode (*Client).send (*Client).handleRequestLocked$1
+//@ census[C10] recv-sites: invokes Recv only-in (*Server).read (*Client).accept
+//@ census[C10] close-sites: invokes Close jrpc2/channel.Channel only-in (*Server).stopLocked (*Client).stopLocked
+//@ census[C10] encode-callers: calls encode only-in (*Server).deliver (*Server).pushReq (*Server).pushErrorLocked
+//@ census[C10] server-reader-spawned-once: go-sites (*Server).read 1 only-in (*Server).Start
+//@ census[C10] client-reader-spawned-once: go-sites (*Client).accept 1 only-in NewClient
+//@ census[C10] stoplocked-callers: calls (*Server).stopLocked only-in (*Server).Stop (*Server).read
+
+// C03 / C01: one dispatcher, one barrier protocol, one reply per batch.
+//@ census[C03] barrier-add-only-in-waitForBarrier: field-calls Server.nbar Add only-in (*Server).waitForBarrier
+//@ census[C03] barrier-wait-only-in-waitForBarrier: field-calls Server.nbar Wait only-in (*Server).waitForBarrier
+//@ census[C03] barrier-done-only-after-handlers: field-calls Server.nbar Done only-in (*Server).dispatchLocked$1 (*Server).dispatchLocked$1$1
+//@ census[C03] nextRequest-only-in-serve: calls (*Server).nextRequest only-in (*Server).serve
+//@ census[C03] dispatcher-spawned-once: go-sites (*Server).serve 1 only-in (*Server).Start
+//@ census[C03] waitForBarrier-only-in-dispatchLocked: calls (*Server).waitForBarrier only-in (*Server).dispatchLocked
+//@ census[C01] deliver-only-by-dispatcher: calls (*Server).deliver only-in (*Server).dispatchLocked$1
+//@ census[C01] responses-only-by-dispatcher: calls (tasks).responses only-in (*Server).dispatchLocked$1
+//@ census[C01] invoke-only-by-dispatcher: calls (*Server).invoke only-in (*Server).dispatchLocked$1 (*Server).dispatchLocked$1$1
+//@ census[C09] replies-intercepted-in-reader: calls (*Server).filterBatchLocked only-in (*Server).read
+//@ census[C07] cancel-funcs-fired-only-by: calls (*Server).cancelLocked only-in (*Server).deliver (*Server).stopLocked$1 (*Server).checkAndAssignLocked
